@@ -34,13 +34,17 @@ func run(c *fw.Ctx) {
 			w := genWorld(c, g, kd.proto)
 			runWorld(c, w)
 			if c.WantSample() && len(w.Objs) > 0 && len(w.Objs) <= 2 && i%7 == 0 {
-				c.Sample(map[string]interface{}{"kind": "srv", "case": w})
+				if b, _ := json.Marshal(w); len(b) < 2500 {
+					c.Sample(map[string]interface{}{"kind": "srv", "case": w})
+				}
 			}
 		} else {
 			cs := genWireCase(c, g, kd.proto, kd.op)
 			runWire(c, cs)
 			if c.WantSample() && len(cs.Body) < 1500 && i%11 == 0 {
-				c.Sample(map[string]interface{}{"kind": "wire", "case": cs})
+				if b, _ := json.Marshal(cs); len(b) < 4000 {
+					c.Sample(map[string]interface{}{"kind": "wire", "case": cs})
+				}
 			}
 		}
 		for f := range g.feats {
